@@ -84,7 +84,7 @@ def main():
 
     # ---------------------------------------------------------------- replay
     if args.replay:
-        with open(args.replay) as f:
+        with open(args.replay, encoding='utf-8') as f:
             j = json.load(f)
         case = core.dec(j['case'] if 'case' in j else j)
         try:
